@@ -2,34 +2,39 @@
 (***************************************************************************)
 (* Pass 2 of C18: the recogniser of JsonGrammar run over CONCRETE token    *)
 (* sequences supplied by the harness (other representatives of an          *)
-(* enumerated class string, grammar-generated and mutated texts, and the   *)
-(* tokenised output of the implementation's JSON.stringify).  The harness  *)
-(* only cuts a text into tokens; class, acceptance and value are decided   *)
-(* here.  Input: ndjson file named by the environment variable C18_INPUT,  *)
-(* one record {"id": n, "t": [[code units of token 1], ...]} per line.     *)
-(* The behaviour of text k is Init(k), then one Step per token.            *)
+(* enumerated class string, completed simulation prefixes, curated and     *)
+(* mutated texts, and the tokenised output of the implementation's         *)
+(* JSON.stringify).  The harness only cuts a text into tokens; the class   *)
+(* of every token, acceptance and the value are decided here, and the cut  *)
+(* itself is re-checked against JsonStringify!Segments.                    *)
+(* Input: ndjson file named by the environment variable C18_INPUT, one     *)
+(* record {"id": n, "t": [[code units of token 1], ...]} per line.         *)
+(* The state graph is a two-level fan-out (root -> bucket -> text) so that *)
+(* TLC's workers share the texts; the behaviour of the machine on text k   *)
+(* is Run(InitState, tokens of k).                                         *)
 (***************************************************************************)
-EXTENDS JsonGrammar, Json, IOUtils
+EXTENDS JsonStringify, Json, IOUtils
 
 Texts == ndJsonDeserialize(IOEnv.C18_INPUT)
+NB == 96
 
-VARIABLES k, i, st
-vars == <<k, i, st>>
+VARIABLES b, k
+vars == <<b, k>>
 
-Init == k \in 1..Len(Texts) /\ i = 0 /\ st = InitState
-Next == /\ i < Len(Texts[k].t)
-        /\ i' = i + 1
-        /\ st' = Step(st, MkTok(Texts[k].t[i + 1]))
-        /\ k' = k
+Init == b = 0 /\ k = 0
+Next == \/ b = 0 /\ k = 0 /\ b' \in 1..NB /\ k' = 0
+        \/ b > 0 /\ k = 0 /\ b' = b /\ k' \in {b + NB * m : m \in 0..((Len(Texts) - b) \div NB)}
 Spec == Init /\ [][Next]_vars
 
-Done == i = Len(Texts[k].t)
+Toks(n) == [j \in 1..Len(Texts[n].t) |-> MkTok(Texts[n].t[j])]
+Fin(n) == Run(InitState, Toks(n))
 
-\* the machine agrees with the relational grammar on the class string of the whole text
-ClassesOf(t) == [j \in 1..Len(t) |-> Classify(t[j])]
-AgreeInv == Done => (Accepting(st) = InGrammar(ClassesOf(Texts[k].t)))
-DeadInv  == (st.mode = "dead") => ~Accepting(st)
+\* the harness cut the text where the specification cuts it
+SegInv == k > 0 => Segments(FlattenSeq(Texts[k].t), 1) = Texts[k].t
+\* no token outside the alphabet
+TokInv == k > 0 => \A j \in 1..Len(Texts[k].t) : Classify(Texts[k].t[j]) # "BAD"
 
-EmitInv == Done => PrintT(<<"OUT", ToJson([id |-> Texts[k].id, acc |-> Accepting(st),
-                                            val |-> IF Accepting(st) THEN FinalValue(st) ELSE NoVal])>>)
+EmitInv == k > 0 => LET f == Fin(k) IN
+             PrintT(<<"OUT", ToJson([id |-> Texts[k].id, acc |-> Accepting(f),
+                                     val |-> IF Accepting(f) THEN FinalValue(f) ELSE NoVal])>>)
 =============================================================================
